@@ -98,6 +98,7 @@ type world struct {
 	onShutdown func(w *world, eng Engine)
 	script     func(w *world) // spawns peers / users (called on main before Run)
 	deviate    func(site string, fd int, n int) []string
+	extra      func(w *world) (string, string) // scenario-specific oracle, evaluated by the property's monitor
 	checks     []func(w *world, out *sched.Outcome) (string, string)
 	deadlockOK bool
 	aux        interface{} // scenario-specific state shared with derived worlds
